@@ -172,6 +172,26 @@ func genBM(r *core.Rand, tier string) *bmCase {
 	var ids []uint32
 	var texts []string
 	next := uint32(1)
+	// dense corpora: a burst of short documents over two or three frequent words, so that
+	// more than 10 (the builder's default k) documents match one query
+	dense := r.Chance(0.2)
+	if dense {
+		for i := r.Range(11, 26); i > 0; i-- {
+			id := next
+			next += uint32(r.Range(1, 2))
+			ids = append(ids, id)
+			var b strings.Builder
+			for j := r.Range(1, 3); j > 0; j-- {
+				b.WriteString(v.words[r.Intn(3)])
+				if j > 1 {
+					b.WriteString(v.seps[r.Intn(2)])
+				}
+			}
+			texts = append(texts, b.String())
+			c.Cmds = append(c.Cmds, bmCmd{Op: "add", ID: id, Text: b.String()})
+		}
+		nops = r.Range(1, maxOps/2)
+	}
 	for i := 0; i < nops; i++ {
 		switch r.Pick(8, 4, 4, 2, 9) {
 		case 0: // add fresh
@@ -211,6 +231,21 @@ func genBM(r *core.Rand, tier string) *bmCase {
 	}
 	for j := r.Range(1, 4); j > 0; j-- {
 		c.Cmds = append(c.Cmds, genBMSearch(r, v, ids, texts, next))
+	}
+	if dense { // every way of asking for "many": all, default k, around 10, around n
+		n := len(ids)
+		for _, k := range []int{0, -1, 10, 9, 11, n - 1, n, n + 1} {
+			cmd := genBMSearch(r, v, ids, texts, next)
+			cmd.K, cmd.NoK = k, k == 10 && r.Bool()
+			if len(cmd.Queries) == 0 {
+				cmd.Queries = []string{""}
+			}
+			cmd.Queries[0] = v.words[r.Intn(3)]
+			if r.Chance(0.7) {
+				cmd.Filter = nil
+			}
+			c.Cmds = append(c.Cmds, cmd)
+		}
 	}
 	return c
 }
